@@ -20,6 +20,7 @@ pub fn describe(script: &Script) -> monlib::Value {
             "position": c.position.as_ref().map(|(f, m)| Gui::Position { fen: f.clone(), moves: m.clone() }.text()),
             "go": Gui::Go(c.go.clone()).text(),
             "stop_after_us": c.stop_after_us,
+            "during": c.during.iter().map(|g| g.text()).collect::<Vec<_>>(),
         })).collect::<Vec<_>>()
     })
 }
@@ -38,7 +39,7 @@ pub fn random_script(rng: &mut StdRng, starts: &mut gen::Starts, in_process: boo
         } else { None };
         let root = cur.clone().unwrap();
         let (go, stop) = random_go(rng, &root.pos, true);
-        cycles.push(Cycle { new_game: rng.gen_bool(0.15), position, go, stop_after_us: stop, extra: vec![] });
+        cycles.push(Cycle { new_game: rng.gen_bool(0.15), position, go, stop_after_us: stop, extra: vec![], during: random_during(rng) });
         roots.push(root);
     }
     // Poll intervals below the node count of a depth-1 iteration (at most 219 negamax nodes) would let a
@@ -196,7 +197,7 @@ pub fn replay(case: &monlib::Value, rep: &mut Report) {
                 _ => i += 1,
             }
         }
-        cycles.push(Cycle { new_game: c["ucinewgame"].as_bool().unwrap_or(false), position, go: g, stop_after_us: c["stop_after_us"].as_u64(), extra: vec![] });
+        cycles.push(Cycle { new_game: c["ucinewgame"].as_bool().unwrap_or(false), position, go: g, stop_after_us: c["stop_after_us"].as_u64(), extra: vec![], during: c["during"].as_array().map(|a| a.iter().filter_map(|t| match t.as_str() { Some("ucinewgame") => Some(Gui::NewGame), Some("isready") => Some(Gui::IsReady), Some("uci") => Some(Gui::Uci), Some("debug on") => Some(Gui::Debug(true)), Some("debug off") => Some(Gui::Debug(false)), _ => None }).collect()).unwrap_or_default() });
         roots.push(cur.clone().expect("first cycle has a position"));
     }
     let script = Script { cycles, poll_interval: sc["poll_interval"].as_u64().unwrap_or(0) };
